@@ -278,6 +278,13 @@ func writeEvidence(pc *propCheck, r *Report, seed int, wall float64, nviol int) 
 		}
 		cov["reviewed_assumptions_used"] = used
 	}
+	if len(separations) > 0 && r.Prop == "C01" {
+		var sep []map[string]string
+		for _, a := range separations {
+			sep = append(sep, map[string]string{"id": a.ID, "field": a.key, "fact": a.Fact, "reason": a.Reason})
+		}
+		cov["reviewed_separations"] = sep
+	}
 	if feCtx != nil && feCtx.ren != nil && len(feCtx.ren.notes) > 0 {
 		cov["anchors_resolved_by_shape"] = feCtx.ren.notes
 	}
